@@ -1151,7 +1151,7 @@ pub fn suite(name: &str, r: &mut Rng, t: u32, n: usize) -> Vec<Value> {
         "c20" => {
             // the input domains of C01-C15 in one stream
             let mut v = vec![];
-            let parts = ["c01", "c02", "c03", "c04", "c05", "c10", "c15", "c08", "c11", "c06", "c14", "c12", "c13"];
+            let parts = ["c01", "c02", "c03", "c04", "c05", "c10", "c15", "c08", "c11", "c06", "c14", "c12", "c13", "c07", "c09", "c08a"];
             let per = n / parts.len() + 1;
             for p in parts {
                 v.extend(suite(p, r, t, per));
